@@ -92,6 +92,11 @@ func verifC18_end() {
 	var code int64
 	if wrongType {
 		in = append(in, mk(vFrame{fin: true, opcode: 1, payload: vBytes("m", 1)}))
+	} else if vChoose("statusless", 2) == 1 {
+		// a Close frame without a payload (what a browser's plain ws.close() sends): status 1005, not a normal closure
+		code = 1005
+		in = append(in, mk(vFrame{fin: true, opcode: 8}))
+		vReach("C18.eof.statusless-close")
 	} else {
 		pc := vBytes("code", 2)
 		code = int64(pc[0])<<8 | int64(pc[1])
